@@ -18,8 +18,19 @@
 (*   P1, P2   spacing of scheduled pass times / wait < maxQueue (throttle) *)
 (*   noarg    a request without the selected argument is admitted at once  *)
 (*   indep    decision = decision of the value's own sub-history           *)
-(* E1, E2, P1 and indep are only demanded while the number of distinct     *)
-(* values seen does not exceed the configured capacity.                    *)
+(* E1, E2, P1 and indep are only demanded while the configured capacity is *)
+(* not exceeded for the value: until a request of the value arrives when   *)
+(* at least `capacity' distinct OTHER values have been used since its last *)
+(* admitted request (recency rank, HotParamQpsOps; sticky: lost[v]).  The  *)
+(* capacity is EffCap(configured ParamsMaxCapacity, duration) - explicit,  *)
+(* however large, or the documented default.                               *)
+(*                                                                         *)
+(* Event "flood": n requests (batch 1) with n FRESH values, recorded as    *)
+(* one line (adm = how many were admitted, wait = total Sleep): every one  *)
+(* of them must be admitted at once when the general threshold is >= 1     *)
+(* (FloodOK), and they add n to the rank of every other value - a flood    *)
+(* that keeps a value's rank BELOW the capacity must not change the        *)
+(* decisions for it (E1 / E2 / P1 / indep are judged as before).           *)
 (*                                                                         *)
 (* Informational: the implementation-shaped layer (HotParamQpsOps part 2)  *)
 (* is run alongside; the first disagreement of a trace prints "DRIFT ..."  *)
@@ -33,11 +44,12 @@ AllVals == {"a", "b", "c", "d", "e", "x", "y", "z"}
 VARIABLES
     l, now,
     first, last, adm, sched,    \* property-level history per value
+    since, fl, lost,            \* recency rank per value (named others / fresh flood values), capacity exceeded for it
     tc, kc,                     \* implementation-shaped layer (drift only)
     g,                          \* [tr, cf, idx, key] of the running trace
     failed, drifted
 
-tvars == <<l, now, first, last, adm, sched, tc, kc, g, failed, drifted>>
+tvars == <<l, now, first, last, adm, sched, since, fl, lost, tc, kc, g, failed, drifted>>
 Ev == Trace[l]
 HasF(r, f) == f \in DOMAIN r
 
@@ -60,8 +72,13 @@ TNew ==
     /\ last' = [v \in AllVals |-> -1]
     /\ adm' = [v \in AllVals |-> << >>]
     /\ sched' = [v \in AllVals |-> << >>]
+    /\ since' = [v \in AllVals |-> {}]
+    /\ fl' = [v \in AllVals |-> 0]
+    /\ lost' = [v \in AllVals |-> FALSE]
     /\ tc' = EmptyCache /\ kc' = EmptyCache
-    /\ g' = [tr |-> Ev.tr, cf |-> Ev.cf, idx |-> Ev.idx, key |-> Ev.key]
+    \* pcap = Rule.ParamsMaxCapacity as loaded (0 = not configured); the capacity the property speaks of follows from it
+    /\ g' = [tr |-> Ev.tr, idx |-> Ev.idx, key |-> Ev.key,
+             cf |-> [Ev.cf EXCEPT !.cap = EffCap(IF HasF(Ev, "pcap") THEN Ev.pcap ELSE Ev.cf.cap, Ev.cf.D, LibCapBase, LibCapMax)]]
     /\ failed' = FALSE /\ drifted' = FALSE
 
 \* a request whose selected argument is v
@@ -74,8 +91,8 @@ ReqValue(v) ==
         first2 == IF first[v] < 0 THEN t ELSE first[v]
         adm2   == IF ok /\ cf.mode = "reject" THEN Append(adm[v], [t |-> t, b |-> b]) ELSE adm[v]
         sched2 == IF ok /\ cf.mode = "throttle" THEN Append(sched[v], [at |-> t + wait, b |-> b]) ELSE sched[v]
-        seen2  == { x \in AllVals : first[x] >= 0 } \cup {v}
-        within == Cardinality(seen2) <= cf.cap
+        lost2  == lost[v] \/ MayForget(cf, since, fl, v, first[v] >= 0)
+        within == ~lost2
         why    == IF HasF(Ev, "panic") /\ Ev.panic THEN "panic"
                   ELSE IF cf.mode = "reject" /\ wait # 0 THEN "reject-mode-wait"
                   ELSE IF cf.mode = "reject" /\ ok /\ within /\ ~E1(cf, v, first2, adm2, t) THEN "E1"
@@ -90,8 +107,12 @@ ReqValue(v) ==
         /\ last' = [last EXCEPT ![v] = t]
         /\ adm' = [adm EXCEPT ![v] = adm2]
         /\ sched' = [sched EXCEPT ![v] = sched2]
+        /\ lost' = [lost EXCEPT ![v] = lost2]
+        /\ since' = SinceAfter(since, v, ok, first[v] >= 0)
+        /\ fl' = FlAfter(fl, v, ok, first[v] >= 0)
         /\ tc' = r.tc /\ kc' = r.kc
         /\ Judge(why = "ok", [why |-> why, v |-> v, thr |-> Tv(cf, v), within |-> within, first |-> first2,
+                              rank |-> IF first[v] >= 0 THEN Rank(since, fl, v) ELSE 0, cap |-> cf.cap,
                               idle |-> IF last[v] < 0 THEN -1 ELSE t - last[v],
                               tokens |-> SumB(adm2), impl |-> [ok |-> r.ok, wait |-> r.wait]])
         /\ Drift(r.ok = ok /\ r.wait = wait)
@@ -104,17 +125,39 @@ TReq ==
        /\ v = Ev.v                                   \* (well-formedness of the trace: the driver routed the solo request by it)
        /\ IF v = None
             THEN /\ Judge(Ev.ok /\ Ev.wait = 0 /\ ~(HasF(Ev, "panic") /\ Ev.panic), [why |-> "noarg"])
-                 /\ UNCHANGED <<first, last, adm, sched, tc, kc, drifted>>
+                 /\ UNCHANGED <<first, last, adm, sched, since, fl, lost, tc, kc, drifted>>
             ELSE v \in AllVals /\ ReqValue(v)
     /\ UNCHANGED g
+
+\* n requests with n fresh values (one summary line)
+TFlood ==
+    /\ IsEvent("flood")
+    /\ Ev.t >= now
+    /\ now' = Ev.t
+    /\ Ev.n >= 1 /\ Ev.adm >= 0 /\ Ev.adm <= Ev.n
+    /\ Sel(Ev.args, Ev.atts, g.idx, g.key) = "*"       \* (well-formedness: the fresh value is the selected argument)
+    /\ LET cf  == g.cf
+           r   == FloodStep(cf, tc, kc, Ev.n)
+           why == IF HasF(Ev, "panic") /\ Ev.panic THEN "panic"
+                  ELSE IF cf.mode = "reject" /\ Ev.wait # 0 THEN "reject-mode-wait"
+                  ELSE IF FloodOK(cf, Ev.n, Ev.adm, Ev.wait) THEN "ok"
+                  ELSE IF cf.T <= 0 THEN "E1"
+                  ELSE IF cf.mode = "reject" THEN "E3" ELSE "indep"
+       IN  /\ fl' = FlAfterFlood(fl, Ev.n)
+           /\ tc' = r.tc /\ kc' = r.kc
+           /\ Judge(why = "ok", [why |-> why, v |-> "fresh values of a flood", thr |-> cf.T, n |-> Ev.n, admitted |-> Ev.adm,
+                                 cap |-> cf.cap, impl |-> [adm |-> r.adm]])
+           /\ Drift(r.adm = Ev.adm /\ Ev.wait = 0)
+    /\ UNCHANGED <<first, last, adm, sched, since, lost, g>>
 
 TInit ==
     /\ l = 1 /\ now = 0
     /\ first = [v \in AllVals |-> -1] /\ last = [v \in AllVals |-> -1]
     /\ adm = [v \in AllVals |-> << >>] /\ sched = [v \in AllVals |-> << >>]
+    /\ since = [v \in AllVals |-> {}] /\ fl = [v \in AllVals |-> 0] /\ lost = [v \in AllVals |-> FALSE]
     /\ tc = EmptyCache /\ kc = EmptyCache
     /\ g = [tr |-> 0, cf |-> << >>, idx |-> 0, key |-> ""]
     /\ failed = FALSE /\ drifted = FALSE
-TNext == TNew \/ TReq
+TNext == TNew \/ TReq \/ TFlood
 TSpec == TInit /\ [][TNext]_tvars
 =============================================================================
